@@ -167,6 +167,11 @@ impl SimStore {
         Self::new_opts(name, sched, false, false)
     }
 
+    /// cold store: every pack goes back to the cold tier (reads need a new warm-up)
+    pub fn cool_down(&self) {
+        self.state.lock().unwrap().warmed.clear();
+    }
+
     pub fn new_opts(name: &str, sched: Arc<Sched>, cold: bool, strict_cold: bool) -> Arc<Self> {
         Arc::new(Self {
             name: name.to_string(),
